@@ -1,26 +1,47 @@
----- MODULE Dominance ----
-EXTENDS Integers, Sequences, FiniteSets
+------------------------------ MODULE Dominance ------------------------------
+(* C01 -- design model of ParetoDominance.compare at the grain of the code: feasibility precedence, then one
+   loop iteration per action with the two flags and the early exit; checked against the textbook definition.
+   The order laws are checked over the whole bounded domain (and proved for arbitrary index sets in
+   proofs/DominanceLaws.tla with TLAPS).                                                                     *)
+EXTENDS DominanceOps, TLC
 CONSTANTS M, Vals, Marks
-Idx == 1..M
-Vec == [c : [Idx -> Vals], m : Marks]
-Abs(x) == IF x < 0 THEN -x ELSE x
-NoWorse(p, q) == \A i \in Idx : p.c[i] <= q.c[i]
-Better(p, q)  == NoWorse(p, q) /\ \E i \in Idx : p.c[i] < q.c[i]
-\* marker precedence exactly as coded: 0 wins, then smaller |marker|; equal |marker| falls through
-MarkCmp(p, q) == IF p.m = q.m THEN 0
-                 ELSE IF p.m = 0 THEN 1 ELSE IF q.m = 0 THEN 2
-                 ELSE IF Abs(p.m) < Abs(q.m) THEN 1 ELSE IF Abs(q.m) < Abs(p.m) THEN 2 ELSE 0
-ParetoCmp(p, q) == IF MarkCmp(p, q) # 0 THEN MarkCmp(p, q)
-                   ELSE IF Better(p, q) THEN 1 ELSE IF Better(q, p) THEN 2 ELSE 0
-\* the coded scan: flags and early exit
-RECURSIVE ScanFrom(_, _, _, _, _)
-ScanFrom(p, q, i, dp, dq) ==
-  IF i > M THEN (IF dp = dq THEN 0 ELSE IF dp THEN 1 ELSE 2)
-  ELSE IF p.c[i] > q.c[i] THEN (IF dp THEN 0 ELSE ScanFrom(p, q, i + 1, dp, TRUE))
-  ELSE IF q.c[i] > p.c[i] THEN (IF dq THEN 0 ELSE ScanFrom(p, q, i + 1, TRUE, dq))
-  ELSE ScanFrom(p, q, i + 1, dp, dq)
-ParetoScan(p, q) == IF MarkCmp(p, q) # 0 THEN MarkCmp(p, q) ELSE ScanFrom(p, q, 1, FALSE, FALSE)
-\* epsilon comparator (positive epsilons): set of admissible verdicts
-EpsCmp(p, q) == IF MarkCmp(p, q) # 0 THEN {MarkCmp(p, q)}
-                ELSE IF p.c = q.c THEN {1, 2} ELSE {ParetoCmp(p, q)}
-====
+Vec == [c : [1..M -> Vals], m : Marks]
+VARIABLES p, q, i, dp, dq, res
+vars == <<p, q, i, dp, dq, res>>
+Init == p \in Vec /\ q \in Vec /\ i = 0 /\ dp = FALSE /\ dq = FALSE /\ res = -1
+Feasibility ==          \* "if p[-1] != q[-1]: ..." -- may decide at once
+    /\ i = 0 /\ res = -1
+    /\ IF MarkCmp(p, q) # 0 THEN res' = MarkCmp(p, q) /\ i' = i ELSE res' = res /\ i' = 1
+    /\ UNCHANGED <<p, q, dp, dq>>
+StepWorse ==            \* p_costs > q_costs
+    /\ res = -1 /\ i \in 1..M /\ p.c[i] > q.c[i]
+    /\ IF dp THEN res' = 0 /\ UNCHANGED <<i, dq>> ELSE dq' = TRUE /\ i' = i + 1 /\ res' = res
+    /\ UNCHANGED <<p, q, dp>>
+StepBetter ==           \* q_costs > p_costs
+    /\ res = -1 /\ i \in 1..M /\ q.c[i] > p.c[i]
+    /\ IF dq THEN res' = 0 /\ UNCHANGED <<i, dp>> ELSE dp' = TRUE /\ i' = i + 1 /\ res' = res
+    /\ UNCHANGED <<p, q, dq>>
+StepEqual ==
+    /\ res = -1 /\ i \in 1..M /\ p.c[i] = q.c[i]
+    /\ i' = i + 1 /\ UNCHANGED <<p, q, dp, dq, res>>
+Finish ==
+    /\ res = -1 /\ i = M + 1
+    /\ res' = (IF dp = dq THEN 0 ELSE IF dp THEN 1 ELSE 2)
+    /\ UNCHANGED <<p, q, i, dp, dq>>
+Next == Feasibility \/ StepWorse \/ StepBetter \/ StepEqual \/ Finish
+Spec == Init /\ [][Next]_vars
+\* ---- properties ----
+ScanIsDefinition == res # -1 => res = ParetoCmp(p, q)
+ScanOpIsDefinition == ParetoScan(p, q) = ParetoCmp(p, q)          \* the recursive operator used elsewhere
+FlagsSound == /\ dp => \E k \in 1..M : p.c[k] < q.c[k]
+              /\ dq => \E k \in 1..M : q.c[k] < p.c[k]
+EpsAgrees == /\ EpsCmp(p, q) # {}
+             /\ (p.c # q.c => EpsCmp(p, q) = {ParetoCmp(p, q)})
+             /\ (p = q => 0 \notin EpsCmp(p, q))
+Irreflexive   == \A x \in Vec : ParetoCmp(x, x) = 0
+Antisymmetric == \A x, y \in Vec : ParetoCmp(y, x) = Swap(ParetoCmp(x, y))
+Transitive    == \A x, y, z \in Vec : (Dominates(x, y) /\ Dominates(y, z)) => Dominates(x, z)
+ASSUME Irreflexive
+ASSUME Antisymmetric
+ASSUME Transitive
+=============================================================================
